@@ -238,6 +238,8 @@ class RunConfig(object):
         # at a time (2048 in the library): small values make small segments span several parts
         self.aupart = rng.choice((2048, 2048, 4, 16, 64))
         self.stopword_text_p = rng.choice((0.0, 0.0, 0.04, 0.15))
+        # the application writes into the stored-field dictionaries it is handed
+        self.scribble = rng.random() < 0.3
         # significant bits of the hash behind the on-disk hash tables (32 in the library)
         self.hashbits = rng.choice((32, 32, 32, 10, 4)) if not __import__("os").environ.get("NOHB") else 32
         for kk, vv in force.items():
@@ -274,6 +276,7 @@ class RunConfig(object):
                 "offcut": getattr(self, "offcut", 32768),
                 "aupart": getattr(self, "aupart", 2048),
                 "hashbits": getattr(self, "hashbits", 32),
+                "scribble": getattr(self, "scribble", False),
                 "stopword_text_p": getattr(self, "stopword_text_p", 0.0),
                 "long_text_p": self.long_text_p}
 
